@@ -4,7 +4,7 @@ import json
 CLAIMED = {
  "C14": dict(level="fault_enumeration", design="DESIGN.md §4.6",
    technique="deterministic fault injection: structure-aware at-rest faults (retarget / boundary / nest / hostile xref fields) planted through the harness writer, walked under simulated resource limits (stack size, allocator caps and meters, work budget) in supervised worker processes",
-   text="Typed templates covering the followed reference fields and numeric parameters named in the property; the complete single-fault space (every reference field x every object incl. itself, object 0 and an undefined number; every numeric field x six boundary values; nesting; stream /Length references; hostile trailer and xref-stream fields incl. /Prev self-loops) is enumerated for all 20 templates (incl. DAG page / name / number trees, font / appearance / JBIG2 DAGs, a 3000-link parent chain, a 60-link ICC chain, text strings and dates, RC4-encrypted documents that open) in four configurations with and without bytes before the header (thorough; the quick tier alternates that last dimension, thins retarget targets and takes every third name / string value); further single faults: stream data replaced by 66 hostile payloads, hostile stream-dictionary entries, every string value x 14 hostile strings, every name value x 34 reader-selecting names, arrays made longer or shorter, objects replaced by one-element arrays around a reference to themselves, two numbers of one stream dictionary set to the same boundary value, small values for geometry and codec parameters, 25- and 5000-level nesting, plus seeded 2-3-fault cases (100 000 quick / 2 000 000 thorough); each case is walked through every read entry point with panics caught, stack overflow / abort / allocation refusal / timeout observed as worker death and confirmed twice.",
+   text="Typed templates covering the followed reference fields and numeric parameters named in the property; the complete single-fault space (every reference field x every object incl. itself, object 0 and an undefined number; every numeric field x six boundary values; nesting; stream /Length references; hostile trailer and xref-stream fields incl. /Prev self-loops) is enumerated for all 21 templates (incl. DAG page / name / number trees, font / appearance / JBIG2 DAGs, a 3000-link parent chain, a 60-link ICC chain, text strings and dates, embedded files / metadata / structure tree / outline destinations, RC4-encrypted documents that open) in four configurations with and without bytes before the header (thorough; the quick tier alternates that last dimension, thins retarget targets and takes every third name / string value); further single faults: stream data replaced by 66 hostile payloads, hostile stream-dictionary entries, every string value x 14 hostile strings, every name value x 34 reader-selecting names, arrays made longer or shorter, objects replaced by one-element arrays around a reference to themselves, two numbers of one stream dictionary set to the same boundary value, small values for geometry and codec parameters, 25- and 5000-level nesting, plus seeded 2-3-fault cases (100 000 quick / 2 000 000 thorough); each case is walked through every read entry point with panics caught, stack overflow / abort / allocation refusal / timeout observed as worker death and confirmed twice.",
    note="Planting the structure is generation (stated in DESIGN.md); the simulation part is the resource side. Templates are small; resource constants are loose bounds against unboundedness."),
  "C01": dict(level="fault_enumeration", design="DESIGN.md §4.5",
    technique="deterministic fault injection on the storage seam (at-rest corruption, EOF anywhere, sector faults, splices) + metered allocator / stack / work budgets, each case walked through every read entry point in a supervised worker process",
@@ -12,7 +12,7 @@ CLAIMED = {
    note="Covers 'valid file + storage faults', not arbitrary byte strings nor grammar-generated texts; resource constants are deliberately loose bounds against unboundedness."),
  "C02": dict(level="exploration", design="DESIGN.md §4.4",
    technique="deterministic simulation of successive writers appending revisions to an append-only medium, crash points at every revision boundary; log-replay ordering check against a 'newest mention wins' map model",
-   text="Seeded update histories (1-8 revisions, 3-12 object numbers; classic tables and xref streams with arbitrary subsection / Index splits, W widths incl. width 0, filters; objects direct, compressed in one or two object streams, freed with generation+1, reused; Size growth; moving Root; trailers with and without /Info; one history in five RC4-encrypted with the harness's own security handler) written by the harness's independent writer and cross-checked by its strict reader; the library opens the medium after every append in strict+uncached and tolerant+cached mode and every object number below /Size plus the trailer is compared with the model. Sampling, not proof.",
+   text="Seeded update histories (1-8 revisions, 3-12 object numbers; classic tables and xref streams with arbitrary subsection / Index splits, W widths incl. width 0, filters (stored Flate, ASCIIHex, LZW, ASCII85 with short final groups, ASCIIHex over Flate) and predictors; objects direct, compressed in one or two object streams, freed with generation+1, reused; Size growth; moving Root; trailers with and without /Info; one history in five RC4-encrypted with the harness's own security handler) written by the harness's independent writer and cross-checked by its strict reader; the library opens the medium after every append in strict+uncached and tolerant+cached mode and every object number below /Size plus the trailer is compared with the model. Sampling, not proof.",
    note="Trusted: the harness writer + strict reader. Torn final appends, hybrid files and generation-rule violations are outside the statement."),
  "C09": dict(level="exploration", design="DESIGN.md §4.3",
    technique="deterministic simulation of a store (put/read/sync/restart) with injected save failures and refusing sinks; step-by-step refinement against a map model, durability and prefix checks after every successful save",
